@@ -34,17 +34,19 @@ LIBS = ['rt_core.c', 'rt_atomic_seq.c', 'model_heap_log.c']
 DEFS = ['CV_NO_HEAP_PRIMS 1']
 SPEC = ['C19/st_spec.h', 'C19/h_st.c']
 
-def unit(alias, types=(), extra_names=(), boundary=(), lib=LIBS, name=None, **kw):
-    """one enforced contract: alias = function under contract; everything it calls is translated and inlined (real bodies)"""
+def unit(alias, types=(), abstract=(), boundary=(), lib=LIBS, name=None, **kw):
+    """one enforced contract: alias = function under contract; everything it calls is translated and inlined (real bodies).
+    abstract = aliases of abstract callees (boundary + stub in the spec): names_opt, so that a code change that stops calling them
+    fails a postcondition instead of the extraction"""
     names = {alias: FN[alias]}
-    for n in extra_names: names[n] = FN[n]
-    d = dict(name=name or alias, driver='c19_storage.cpp', roots=[FN[alias]], names=names, types={k: T[k] for k in types},
+    d = dict(name=name or alias, driver='c19_storage.cpp', roots=[FN[alias]], names=names, names_opt={n: FN[n] for n in abstract},
+             types={k: T[k] for k in types},
              boundary=list(boundary), lib=list(lib), defines=list(DEFS), spec=list(SPEC), harness='h_' + alias, enforce=alias,
              under_contract=[FN[alias].strip('^$').replace('\\', '')], timeout=300)
     d.update(kw)
     return d
 XH = DEFS + ['C19_EXTRA_HOOKS 1']
-FACTORY = dict(extra_names=['factory_call'], boundary=[FN['factory_call']], defines=XH)
+FACTORY = dict(abstract=['factory_call'], boundary=[FN['factory_call']], defines=XH)
 
 UNITS = [
     unit('ds_alloc'), unit('ds_dealloc'),
@@ -63,10 +65,10 @@ UNITS = [
     unit('pesr_alloc', ['PESR', 'RS', 'EXTRA', 'FNB'], **FACTORY), unit('pesr_dealloc', ['PESR', 'RS', 'EXTRA'], defines=XH),
 ]
 
-def life(tag, fns, types, extra_roots=(), boundary=(), lib=LIBS, hooks=False, extra_names=None, **kw):
+def life(tag, fns, types, extra_roots=(), boundary=(), lib=LIBS, hooks=False, abstract=None, **kw):
     """lemma unit: a plain CBMC harness over the real bodies of several members (no contract instrumentation)"""
-    names = {f: FN[f] for f in fns}; names.update(extra_names or {})
-    d = dict(name='life_' + tag, kind='lemma', driver='c19_storage.cpp', roots=[FN[f] for f in fns] + list(extra_roots), names=names,
+    names = {f: FN[f] for f in fns}
+    d = dict(name='life_' + tag, kind='lemma', driver='c19_storage.cpp', roots=[FN[f] for f in fns] + list(extra_roots), names=names, names_opt=dict(abstract or {}),
              types={k: T[k] for k in types}, boundary=list(boundary), lib=list(lib),
              defines=DEFS + ['C19_LEMMA 1', 'C19_LIFE_%s 1' % tag.upper()] + (['C19_EXTRA_HOOKS 1'] if hooks else []),
              spec=['C19/st_spec.h', 'C19/h_lemmas.c'], harness='h_life_' + tag, under_contract=[], timeout=300)
@@ -77,7 +79,7 @@ import re as _re
 POLICIES = [('ds', 'cocls::default_storage'), ('rs', 'cocls::reusable_storage'), ('pa', 'cocls::placement_alloc'), ('mt', 'cocls::reusable_storage_mtsafe'),
             ('ss', 'cocls::stack_storage'), ('rb', T['RB']), ('pes', T['PES']), ('pesr', T['PESR'])]
 def ops_unit():
-    names = {}; roots = []; boundary = []; uc = []
+    names = {}; names_opt = {}; roots = []; boundary = []; uc = []
     for tag, cpp in POLICIES:
         base = r'cocls::custom_allocator_base<%s, cocls::async_promise<int> >::' % _re.escape(cpp)
         names['new_' + tag] = r'^void\* ' + base + r'operator new<int&>\('
@@ -85,23 +87,84 @@ def ops_unit():
         names['delete_' + tag] = r'^' + base + r'operator delete\(void\*, unsigned long\)$'
         for k in ('new_', 'new2_', 'delete_'): roots.append(names[k + tag])
         for k in ('_alloc', '_dealloc'):
-            names[tag + k] = FN[tag + k]; boundary.append(FN[tag + k])
+            names_opt[tag + k] = FN[tag + k]; boundary.append(FN[tag + k])
         uc += ['cocls::custom_allocator_base<%s, cocls::async_promise<int> >::operator new / operator delete' % cpp]
     ty = {k: T[k] for k in ('RS', 'PA', 'MT', 'SS', 'RB', 'PES', 'PESR')}
-    return dict(name='ops', kind='lemma', driver='c19_storage.cpp', roots=roots, names=names, types=ty, boundary=boundary, lib=list(LIBS),
+    return dict(name='ops', kind='lemma', driver='c19_storage.cpp', roots=roots, names=names, names_opt=names_opt, types=ty, boundary=boundary, lib=list(LIBS),
                 defines=DEFS + ['C19_LEMMA 1', 'C19_OPS 1'], spec=['C19/st_spec.h', 'C19/h_lemmas.c'], harness='h_ops', under_contract=uc, timeout=300)
 # thread-modular reading of the mtsafe storage: atomics = protocol primitives with interference by other threads (C19/c19_atomics.h)
 TM = dict(lib=['rt_core.c', 'model_heap_log.c'], spec=['C19/c19_atomics.h'] + SPEC, defines=DEFS + ['C19_TM 1'], kind='contract (thread-modular)')
-UNITS += [unit('mt_alloc', ['MT', 'RS'], name='mt_alloc_tm', **TM), unit('mt_dealloc', ['MT', 'RS'], name='mt_dealloc_tm', **TM)]
+def tm(alias, name, extra_defs=()):
+    d = dict(TM); d['defines'] = TM['defines'] + list(extra_defs)
+    return unit(alias, ['MT', 'RS'], name=name, **d)
+# mt_alloc is split by what the other threads did before the deciding exchange (the two cases together are exhaustive)
+UNITS += [tm('mt_alloc', 'mt_alloc_tm_flag', ['C19_TM_ENV_GROWS 0']), tm('mt_alloc', 'mt_alloc_tm_grown', ['C19_TM_ENV_GROWS 1']), tm('mt_dealloc', 'mt_dealloc_tm')]
 UNITS += [
     life('ds', ['ds_alloc', 'ds_dealloc'], []),
     life('rs', ['rs_ctor', 'rs_alloc', 'rs_dealloc', 'rs_capacity', 'rs_move_ctor', 'rs_dtor'], ['RS']),
     life('mt', ['mt_ctor', 'mt_alloc', 'mt_dealloc', 'mt_dtor'], ['MT', 'RS']),
     life('ss', ['ss_ctor', 'ss_set', 'ss_size', 'ss_alloc', 'ss_dealloc'], ['SS']),
     life('rb', ['rb_ctor', 'rb_alloc', 'rb_dealloc'], ['RB', 'VECC'], boundary=VEC_BOUNDARY, lib=LIBS + ['model_vector_char.c']),
-    life('pes', ['pes_alloc', 'pes_dealloc'], ['PES', 'EXTRA'], extra_roots=[r'^drv_pes_ctor$', r'^drv_pes_dtor$'], hooks=True, boundary=[BFC], extra_names={'bad_function_call_ctor': r'^std::bad_function_call::bad_function_call\(\)$'}),
-    life('pesr', ['pesr_alloc', 'pesr_dealloc'], ['PESR', 'RS', 'EXTRA'], extra_roots=[r'^drv_pesr_ctor$', r'^drv_pesr_dtor$'], hooks=True, boundary=[BFC], extra_names={'bad_function_call_ctor': r'^std::bad_function_call::bad_function_call\(\)$'}),
+    life('pes', ['pes_alloc', 'pes_dealloc'], ['PES', 'EXTRA'], extra_roots=[r'^drv_pes_ctor$', r'^drv_pes_dtor$'], hooks=True, boundary=[BFC], abstract={'bad_function_call_ctor': r'^std::bad_function_call::bad_function_call\(\)$'}),
+    life('pesr', ['pesr_alloc', 'pesr_dealloc'], ['PESR', 'RS', 'EXTRA'], extra_roots=[r'^drv_pesr_ctor$', r'^drv_pesr_dtor$'], hooks=True, boundary=[BFC], abstract={'bad_function_call_ctor': r'^std::bad_function_call::bad_function_call\(\)$'}),
     ops_unit(),
 ]
 
-META = dict(level='proof', level_text='TODO', level_note='TODO', technique='TODO', trusted_base=[], assumptions=[], explanation='see level_text')
+META = dict(
+    level='proof',
+    level_text=(
+        'Every alloc and every dealloc of default_storage, reusable_storage, reusable_storage_mtsafe, stack_storage, placement_alloc, '
+        'reusable_buffer_storage<std::vector<char>> and promise_extra_storage<Extra, default_storage | reusable_storage> - plus their constructors, '
+        'destructors, moves and accessors - is verified against an enforced contract on the real (translated) body, for every frame size '
+        '1 <= sz < 2^30, every capacity / shared-state value and every representation (no block yet / block present, flag free / taken, own block / '
+        'heap fallback). All bodies are loop-free, so each contract unit is a complete proof of its function. Postconditions (from the property '
+        'statement): the returned block is readable and writable for sz bytes plus the policy\'s trailer (owner pointer, marker byte, extra object); it is '
+        'either the policy\'s own block or THE one block obtained from operator new during the call, asked for exactly the needed size (heap log); '
+        'dealloc(ptr, same sz) releases a heap fallback exactly once (exactly ptr) and never releases or invalidates an own / caller-supplied block; '
+        'busy flag set by alloc, cleared by dealloc iff the block was the own one; marker byte 0/1 inside the block and consistent with dealloc; '
+        'capacity of reusable_storage = max(old, sz), never shrinks, and a request that fits causes no heap traffic at all (warm-up); stack_storage teaches '
+        'the shared state sz+1 exactly when it had to fall back; reusable_buffer_storage leaves a large-enough buffer untouched; the extra object of '
+        'promise_extra_storage is constructed exactly once by the storage\'s factory at ptr+sz inside the block, is what `inventory` / operator-> / operator* '
+        'designate when alloc returns, and is destroyed exactly once by dealloc while its memory is still valid, before the block is released. '
+        'reusable_storage_mtsafe is verified twice: with sequential atomics, and thread-modularly (mt_*_tm units) with protocol primitives that let other '
+        'threads take, grow and release the own block before the deciding exchange: the own block is handed out iff the single atomic exchange observed '
+        '"free" (then this thread holds the unique BLOCK token and nobody else touches _ptr/_capacity), otherwise neither _ptr, _capacity nor the own block '
+        'are read or written; the flag is stored false only by the token holder. custom_allocator_base::operator new (both placement forms) and operator '
+        'delete are proved to be exact forwarders to Allocator::alloc / dealloc (same size, same pointer, exactly one call) for all eight policies. '
+        'Lemma units run the real bodies in sequence (exhaustive, symbolic sizes): alloc;dealloc (+ destructor) leaves allocations == releases for every '
+        'policy, no block is released twice or used after release, equal-or-smaller frames after warm-up cause no heap traffic (reusable, mtsafe, stack, '
+        'buffer, extra+reusable), two simultaneously live frames on one mtsafe storage are different objects whose canaries survive every operation on '
+        'the other in both completion orders, and the real cocls::function<> factory machinery constructs / destroys the extra object exactly once per frame.'),
+    level_note=(
+        'Trusted: clang front end, ir2c, heap primitive with log (lib/model_heap_log.c), abstract std::vector<char> (lib/model_vector_char.c), the '
+        'observation hooks of the driver\'s Extra type, CBMC. The thread-modular reading checks conformance of each function to the stated '
+        'rely/guarantee protocol; soundness of rely/guarantee composition and atomicity of RMWs are argued, not machine-checked. Memory ORDERS are '
+        'not judged here (property C03): the IR shows busy.exchange(true) and busy.store(false) both with memory_order_relaxed (monotonic) and a plain '
+        '(non-atomic) read of me->_ptr in dealloc while another thread may be writing it in alloc - frame contents, _ptr and _capacity are therefore '
+        'not published between threads: a data-race / publication defect for C03, functionally invisible under sequentially consistent atomics. '
+        'NOT covered: static_storage<N> (its dealloc is non-static, so it does not satisfy the Storage concept and cannot be used through '
+        'with_allocator at all); alignment of the trailer / extra object at ptr+sz (CBMC has no alignment check; fine when the frame size is a multiple '
+        'of alignof(T) resp. 8); a THROWING factory in promise_extra_storage::alloc (the block obtained from Alloc is then never released / the mtsafe '
+        'flag stays set - reproduced natively in replay/c19_extra_factory_throws.cpp, outside the property statement); that the compiler-generated '
+        'coroutine ramp passes the same size to operator new and operator delete (language guarantee); bad_alloc.'),
+    technique=('CBMC 6.11 code contracts (requires/ensures/assigns/frees) enforced per function via goto-instrument --dfcc on the C translation of the '
+               'clang IR of coro_storage.h / alloca_storage.h / with_allocator.h; protocol-aware atomic primitives with environment interference for the '
+               'thread-safe policy; plain symbolic-execution lemma harnesses over the real bodies for the history-level clauses'),
+    trusted_base=[
+        'heap primitive with a log of the last allocated / released block (lib/model_heap_log.c; same semantics as rt_core.c plus three ghosts)',
+        'assumed contract: std::vector<char> size()/resize()/data() - one block, grows to an arbitrary capacity >= n through operator new/delete, never reallocates when n <= capacity; element values not modelled (lib/model_vector_char.c)',
+        'assumed contract (contract units only): cocls::function<Extra()>::operator() constructs exactly one Extra in the place it is given and does not throw; the lemma units life_pes / life_pesr run the real function<> machinery instead',
+        'observation hooks c19_extra_ctor / c19_extra_dtor of the driver type Extra (drivers/c19_storage.cpp) count constructions / destructions and assert the memory is valid at that moment',
+        'protocol primitives for the busy flag with rely-step interference (specs/C19/c19_atomics.h) in the mt_*_tm units; sequential atomics (lib/rt_atomic_seq.c) elsewhere',
+    ],
+    assumptions=[
+        '1 <= sz < 2^30 and block sizes / capacities < 2^30 + 64 (arithmetic bound; sz+1 and sz+sizeof(trailer) do not wrap; a coroutine frame is never empty)',
+        'dealloc(ptr, sz) is called with a pointer returned by alloc(sz) of the same policy and the same sz, and the bytes behind the frame (owner pointer, marker byte, extra object) are as alloc left them (the frame occupies [ptr, ptr+sz) only)',
+        'documented usage of the non-thread-safe policies: reusable_storage, placement_alloc, reusable_buffer_storage and stack_storage serve ONE live frame at a time (alloc is called only when the previous frame is gone); exclusivity of the own block is the caller\'s duty there, it is guaranteed by the busy flag only for reusable_storage_mtsafe',
+        'documented usage: a storage object (and stack_storage\'s shared size_t, placement_alloc\'s buffer, the std::vector of reusable_buffer_storage) outlives every frame allocated from it - reusable_storage_mtsafe::dealloc reads the owner even for heap-fallback frames; the user does not touch the vector while a frame lives in it',
+        'placement_alloc: the caller\'s buffer is at least sz bytes (the policy cannot check); stack_storage: operator=(alloca(size)) was called with a block of _alloc_size bytes (alloca(0) when the shared state is still 0)',
+        'the factory given to promise_extra_storage does not throw and T\'s alignment divides the frame size',
+        'thread-modular units: rely/guarantee soundness; atomic RMWs on the flag are totally ordered; a non-atomic read of _ptr racing with a write returns the old or the new value (the race itself is a C03 obligation)',
+        'heap counters are per thread in the thread-modular units (blocks allocated / released by other threads are not counted)',
+    ],
+    explanation='see level_text')
